@@ -77,6 +77,14 @@ def check_run(run: WorkerRun, model: Model, res: Result, label: str) -> None:
     conv = sc.get("converter", "basic")
     plans = {j["id"]: j for j in sc["jobs"]}
     horizon = next((e["t"] for e in run.events if e["kind"] == "run_horizon"), None)
+    if horizon is None and not sc.get("M") and not sc.get("stops_itself"):
+        # nobody asked this worker to stop (no message limit, no signal): its run() must still be going at the end of the window
+        ret = next((e["t"] for e in run.events if e["kind"] == "run_return"), None)
+        if ret is not None:
+            res.bad("impl", "the worker stopped processing on its own (run() returned although nobody asked it to stop)",
+                    case={"label": label, "converter": conv, "jobs": len(sc["jobs"])}, observed={"returned_at_us": ret},
+                    expected="still running at the end of the observation window")
+            horizon = ret + 10_000_000
     # executions cut off by the end of the observation window are not judged
     def cut(d):
         if horizon is None:
@@ -290,7 +298,15 @@ def run(ctx) -> Result:
         sc = {"jobs": jobs, "converter": r2.choice(["basic", "pydantic"]), "tasks_limit": r2.choice([1, 2, 5, 50]),
               "policy": r2.choice([{"kind": "const", "us": 0}, {"kind": "linear", "us": 300_000}, {"kind": "const", "us": S}]),
               "horizon_s": 12.0}
-        r = vtime.run(lambda loop, s=sc: run_scenario(s), budget=30_000_000)
+        # the first mix with every log record of the library processed (a verbose application: DEBUG)
+        import logging
+        lvl = logging.getLogger("repid").level
+        if i == 0:
+            logging.getLogger("repid").setLevel(logging.DEBUG)
+        try:
+            r = vtime.run(lambda loop, s=sc: run_scenario(s), budget=30_000_000)
+        finally:
+            logging.getLogger("repid").setLevel(lvl)
         check_run(r, model, res, f"mix-{seed}-{i}")
     # the same worker on the Redis and RabbitMQ brokers (in-process fake servers): disposition per delivery
     for kind in ("redis", "rabbit"):
@@ -298,7 +314,14 @@ def run(ctx) -> Result:
             r3 = Rng(seed, f"c02/{kind}/{pol_us}")
             jobs = r3.sample(table_jobs(True, r3), 60 if deep else 30)
             sc = {"jobs": jobs, "converter": "basic", "policy": {"kind": "const", "us": pol_us}, "horizon_s": 14.0, "broker": kind}
-            r = vtime.run(lambda loop, s=sc: run_scenario(s), budget=120_000_000)
+            import logging
+            lvl = logging.getLogger("repid").level
+            if pol_us == 0:
+                logging.getLogger("repid").setLevel(logging.DEBUG)      # (as above: one run per broker with DEBUG records)
+            try:
+                r = vtime.run(lambda loop, s=sc: run_scenario(s), budget=120_000_000)
+            finally:
+                logging.getLogger("repid").setLevel(lvl)
             check_run(r, model, res, f"table-{kind}-{pol_us}")
             res.dist[f"broker:{kind}"] += len(jobs)
     part_sync_actors(res)
